@@ -66,6 +66,12 @@ def parse_linear(files, name):
 Alignment = collections.namedtuple("Alignment", "read_id chr strand exons ttype gtype isoforms genes info lines")
 
 
+def _is_header(l, first_col):
+    """header/comment lines of the per-read tables: '# ...' (with a blank) or the column title line; a read name may itself
+    start with '#' (valid QNAME character)"""
+    return l.startswith("# ") or l.startswith("#" + first_col + "\t") or l == "#"
+
+
 def parse_read_assignments(files, name):
     """groups the lines of read_assignments.tsv into alignments (read id, chr, exon string)"""
     ls = lines_of(files, name)
@@ -73,7 +79,7 @@ def parse_read_assignments(files, name):
         return None
     groups = collections.OrderedDict()
     for l in ls:
-        if l.startswith("#"):
+        if _is_header(l, "read_id"):
             continue
         f = l.split("\t")
         if len(f) < 9:
@@ -113,7 +119,7 @@ def parse_r2t(files, name):
         return None
     out = []
     for l in ls:
-        if l.startswith("#"):
+        if _is_header(l, "read_id"):
             continue
         f = l.split("\t")
         out.append((f[0], f[1]))
